@@ -47,6 +47,30 @@ def _recv(fd):
     return pickle.loads(_recv_exact(fd, n))
 
 
+def _recv_deadline(fd, seconds, what):
+    """_recv that gives up (RuntimeError -> harness error) instead of hanging."""
+    deadline = time.monotonic() + seconds
+    buf = bytearray()
+    need = 8
+    n = None
+    while True:
+        left = deadline - time.monotonic()
+        if left <= 0:
+            raise RuntimeError(f"no answer from {what} within {seconds:.0f} s")
+        rl, _, _ = select.select([fd], [], [], min(left, 1.0))
+        if not rl:
+            continue
+        b = os.read(fd, min(need - len(buf), 1 << 20))
+        if not b:
+            raise EOFError
+        buf += b
+        if n is None and len(buf) == 8:
+            (n,) = struct.unpack("<Q", bytes(buf))
+            need = 8 + n
+        if n is not None and len(buf) == need:
+            return pickle.loads(bytes(buf[8:]))
+
+
 def run_in_child(fn, job, timeout, outfile):
     """Run fn(job) in a forked child with a wall-clock watchdog."""
     r, w = os.pipe()
@@ -87,6 +111,8 @@ def run_in_child(fn, job, timeout, outfile):
                 if not b:
                     break
                 data += b
+                if len(data) >= 8 and len(data) >= 8 + struct.unpack("<Q", bytes(data[:8]))[0]:
+                    break  # the whole result is here: do not wait for stragglers holding the pipe
     finally:
         os.close(r)
     if status == "timeout":
@@ -174,7 +200,7 @@ class Lanes:
             os.close(res_w)
             self.lanes.append({"pid": pid, "cmd_w": cmd_w, "res_r": res_r, "busy": None, "ready": False})
         for ln in self.lanes:
-            msg = _recv(ln["res_r"])
+            msg = _recv_deadline(ln["res_r"], 600, "a lane at start-up")
             if "lane_error" in msg:
                 self.close()
                 raise RuntimeError("lane failed to start:\n" + msg["lane_error"])
